@@ -59,9 +59,9 @@ theorem C10_probe_closed_rows :
       ∀ e ∈ Probe.entries, ∀ b, e.2 = .tx b → Probe.cell (Probe.stateAfter w) e = (e.1, "closedout", false) := by
   decide
 
-/-- non-vacuity: seven of the eight ways leave the output closed; on the open session every
+/-- non-vacuity: eight of the nine ways leave the output closed; on the open session every
 transmit entry reaches the connection -/
-example : (Probe.ways.filter fun w => (Probe.stateAfter w).outClosed).length = 7 := by decide
+example : (Probe.ways.filter fun w => (Probe.stateAfter w).outClosed).length = 8 := by decide
 example : ∀ e ∈ Probe.entries, e.2 ≠ .read → (Probe.cell (Probe.stateAfter ⟨"open", false, []⟩) e).2.2 = true := by decide
 
 /-- the functions of the package that write to the encoder or to the connection themselves:
